@@ -63,11 +63,11 @@ def check_C02(ctx):
     recs = ctx.path("recs.ndjson")
     nrand = 4000 if q else 60000
     st = run_vh(ctx, ["c02", "--cases", allcases, "--out", recs, "--random", nrand, "--seed", ctx.seed,
-                      "--max-events", 40 if q else 80])
+                      "--max-events", 40 if q else 80, "--stale-every", 5 if q else 25])
     ctx.evaluations += st["records"]
     ctx.distinct_nontrivial += st["nontrivial"]
     ctx.samples += st["samples"]
-    mism = run_tv(ctx, "TV_LiveEvents", recs)
+    mism = run_tv(ctx, "TV_LiveEvents", recs, timeout=1800 if q else 9000)
     # action-level binding: step logs of the instrumented pump replayed through the actions of LiveEvents.tla
     mism += pump_traces(ctx, allcases, "TR_LiveEvents", 10 if q else 2, None)
     classify_mismatches(ctx, mism, recs, c02_matchers(), "from_str(aliased document) differs from the alias-free expansion required by YamlModel!RequiredTree")
